@@ -1,7 +1,7 @@
 package dtls
 
 //symgo:pkg github.com/pion/dtls/v3
-//symgo:param NSUITE quick=4 thorough=17
+//symgo:param NSUITE quick=17 thorough=17
 //symgo:param NEPOCH quick=2 thorough=5
 //symgo:param NLEN quick=1 thorough=3
 //symgo:param SYMSUITE quick=0 thorough=1
